@@ -102,6 +102,12 @@ def lru_space(tier):
             kw = dict(kind=kind, cap=cap, w=w, hash=h, alpha="lru", lru=1, keys=keys, D=d, A=0, Q=0,
                       autosync=1 if kind == "S" else 0)
             out.append(seqjob(name("lru", kw), **kw))
+            # the same space with expiry configured (the clock stands still, so nothing
+            # expires, but the timestamp-carrying code paths decide recency)
+            if h == "spread" and cap <= 3:
+                for ex in (dict(ttl=2), dict(tti=2), dict(ttl=3, tti=2)):
+                    k2 = dict(kw, **ex)
+                    out.append(seqjob(name("lru", k2), **k2))
     return out
 
 
@@ -136,8 +142,9 @@ def c08_space(tier):
                 kw.update(D=9 if thorough else 6, A=2 if ex else 0)
                 out.append(seqjob(name("c08", kw), **kw))
             else:
-                kw.update(D=8 if thorough else 6, Q=3, A=1 if ex else 0)
-                out.append(seqjob(name("c08", kw), **kw))
+                for rg in regimes():
+                    k2 = dict(kw, D=8 if thorough else 6, Q=3, A=(2 if rg["beyond"] == 0 else 1) if ex else 0, **rg)
+                    out.append(seqjob(name("c08", k2), **k2))
     out.append({"id": "deque-4", "argv": ["dequex", "4", "40"]})
     if thorough:
         out.append({"id": "deque-6", "argv": ["dequex", "6", "60"]})
@@ -231,7 +238,7 @@ def _jobs_for(prop, tier):
     if prop == "C15":
         return pure_space(tier)
     if prop == "C16":
-        return c01_space(tier, caps=["none", 2], with_collide=False, prefix="c16")
+        return c01_space(tier, caps=["none", 2], with_collide=False, prefix="c16", a=3 if thorough else 2, dU=8 if thorough else 6)
     if prop == "C17":
         return [{"id": "cfgx", "argv": ["cfgx"]}]
     return []
